@@ -36,6 +36,7 @@ from .fortran_funcs import fortran_funcs
 from ..parser import replace
 
 # external _imports
+import re
 import subprocess
 import sys
 import os
@@ -338,6 +339,10 @@ class FortranBackend(BaseBackend):
 
     @staticmethod
     def expr_to_str(expr: str, args: tuple):
+
+        # a quotient of two integer literals (the printed form of a rational number such as the exponent in x**(1/3))
+        # would be an integer division in Fortran
+        expr = re.sub(r"(?<![\w.)])(\d+)/(\d+)(?![\w.(])", r"\1.0d0/\2.0d0", expr)
 
         func = 'cshift('
         if func in expr:
